@@ -4,7 +4,9 @@
      STag      ::= LT Name (S Attribute)* S? GT           Attribute ::= Name Eq AttValue
      AttValue  ::= QUOT ([^<&QUOT] | Reference)* QUOT  |  APOS ([^<&APOS] | Reference)* APOS
      Reference ::= AMP (amp|lt|gt|quot|apos) SEMI | AMP # [0-9]+ SEMI | AMP #x [0-9a-fA-F]+ SEMI  (must denote a Char)
-   plus: matching end tags, no attribute twice in a tag, every character an XML Char.
+   plus: matching end tags, no attribute twice in a tag, every character an XML Char, and - CharData ::= [^<&]* minus
+   ([^<&]* RSQB RSQB GT [^<&]* ) - no ']]>' in character data (a '>' is refused when the two characters decoded just
+   before it are ']]'; this also refuses the legal but exotic spelling with character references for the brackets).
    Names are restricted to ASCII name characters (enough for every name the writers emit).
    The machine also returns the parsed events (text characters decoded, attributes decoded).
    The document-level oracle (references resolve, ids unique, ...) is ok_refs below. *)
@@ -89,8 +91,15 @@ Definition attr_parse (s : str) : option str :=
       else None
   | [] => None
   end.
+(* ']]>' must not occur in character data (XML 1.0 production [14]) *)
+Fixpoint has_cdata_end (s : str) : bool :=
+  match s with
+  | [] => false
+  | c :: t => ((c =? 93) && match t with d :: e :: _ => (d =? 93) && (e =? 62) | _ => false end) || has_cdata_end t
+  end.
 (* character data (no markup): the decoded text *)
 Definition text_parse (s : str) : option str :=
+  if has_cdata_end s then None else
   match vrun (VNormal []) s with Some (VNormal acc) => Some (rev acc) | _ => None end.
 
 (* ---- element content ------------------------------------------------------------------------------------------ *)
@@ -117,6 +126,9 @@ Record pst := mkPst { p_stack : list str; p_ev : list xev; p_tag : str; p_attrs 
 
 Definition flush_text (v : vst) : option (list xev) :=
   match v with VNormal acc => Some (map EText acc) | VRef _ _ => None end.
+(* the character data read so far ends in ']]' *)
+Definition after_brackets (v : vst) : bool :=
+  match v with VNormal (a :: b :: _) => (a =? 93) && (b =? 93) | _ => false end.
 
 Definition xstep (s : pst) (c : Z) : option pst :=
   let '(mkPst stack ev tag attrs aname m) := s in
@@ -124,6 +136,7 @@ Definition xstep (s : pst) (c : Z) : option pst :=
   | MContent v =>
       if c =? 60 then
         match flush_text v with Some te => Some (mkPst stack (te ++ ev) [] [] [] MLt) | None => None end
+      else if (c =? 62) && after_brackets v then None
       else match vstep v c with Some v' => Some (mkPst stack ev tag attrs aname (MContent v')) | None => None end
   | MLt =>
       if c =? 47 then Some (mkPst stack ev [] [] [] (MCloseName []))
